@@ -6,10 +6,21 @@
    may share an inode and nothing may crash.  The theorems below establish that the reference tree
    itself behaves as a directory tree should; proofs are in Proofs/MutFsProofs.v. *)
 From Coq Require Import List String NArith Bool Arith.
-From DM Require Import Model.Mount Model.MutFs Proofs.MutFsProofs.
+From DM Require Import Model.Mount Model.MutFs Proofs.MutFsProofs Proofs.MutFsWf.
 Import ListNotations.
 Open Scope string_scope.
 Open Scope list_scope.
+
+(* The reference tree stays a tree under every program of operations, renames of whole subtrees
+   included: no path occurs twice, no node sits at the root path, every node's parent is a directory
+   of the tree. *)
+Theorem C18_tree_stays_a_tree : forall ops t, wf t -> wf (run ops t).
+Proof. exact run_wf. Qed.
+Print Assumptions C18_tree_stays_a_tree.
+
+Theorem C18_empty_tree_is_a_tree : wf [].
+Proof. exact wf_empty. Qed.
+Print Assumptions C18_empty_tree_is_a_tree.
 
 (* An operation that is refused changes nothing. *)
 Theorem C18_refused_changes_nothing : forall t o e, snd (step t o) = RErr e -> fst (step t o) = t.
